@@ -174,6 +174,16 @@ func ChildMain() {
 		res = runStoreHist(req)
 	case "stress":
 		res = runStress(req)
+	case "batch":
+		var l []any
+		for _, o := range asList(req["ops"]) {
+			if om, ok := o.(M); ok && asStr(req["stream"]) == "parse" {
+				l = append(l, ExecParse(om))
+			} else {
+				l = append(l, "unknown-op")
+			}
+		}
+		res = l
 	case "storeOnce":
 		// one Store with an optional file-size limit: the crash subject
 		if req["fsize"] != nil {
